@@ -1,4 +1,4 @@
 SPECIFICATION Spec
 CONSTANT Dump = FALSE
-INVARIANTS InDomainAlways PrettyReflexive
+INVARIANTS InDomainAlways PrettyReflexive PrettyL2Refines
 CHECK_DEADLOCK FALSE
